@@ -90,6 +90,8 @@ def replay_all(profs, hists, tail_next):
 def check(ctx, pid="C10"):
     q = ctx.tier == "quick"
     K, D = (3, 4) if q else (5, 5)
+    from . import design
+    gen = design.gen_basic(ctx) if pid == "C10" else None
     profs = profiles(ctx.tier)
     hists = histories(ctx, K, D)
     sim = histories(ctx, K + 2, 8, simulate=40 if q else 500, seed=ctx.seed)
@@ -112,6 +114,7 @@ def check(ctx, pid="C10"):
         "histories_exhaustive": len(hists), "alphabet": f"next, finalize(-1..{K})", "depth": D,
         "histories_simulated": len(set(sim)), "simulated_depth": 8, "profiles": len(profs),
         "sibling_traces": sum(1 for t in traces if t.get("sib")),
+        "design_level_generator_models": gen,
         "finalize_calls_by_outcome": {"ok": fin[0], "ValueError": fin[1], "RuntimeError": fin[2],
                                       "other": fin[3]},
         "samples": [{"config": fw.describe(t), "events": t["ev"][:5]} for t in traces[:: max(1, len(traces) // 4)]][:4],
